@@ -102,13 +102,23 @@ def run(ctx):
                 ok = False
         ctx.ob('OPEN-GATE', 'psf_open_file:' + vname, ok, f.loc(succ[0]), '%s gate %s' % (vname, 'dominates the success return and its failing edge cannot reach it' if ok else 'MISSING or bypassable'), None)
     v = prog.fn('validate_sfinfo', 'sndfile.c')
-    conds = {v.s(n['cond']) for n in v.walk() if n['k'] == 'IfStmt'}
-    need = ['(sfinfo->samplerate < 1)', '(sfinfo->frames < 0)', '((sfinfo->channels < 1) || (sfinfo->channels > 1024))', '((sfinfo->format & SF_FORMAT_TYPEMASK) == 0)',
-            '((sfinfo->format & SF_FORMAT_SUBMASK) == 0)', '(sfinfo->sections < 1)']
-    for c in need:
-        ctx.ob('OPEN-GATE', 'validate_sfinfo:' + c, c in conds, v.loc(v.body), 'rejects when %s: %s' % (c, 'present' if c in conds else 'MISSING (have %s)' % sorted(conds)), None)
-    rets = [v.unwrap(v.N[r['kids'][0]]).get('v') for r in v.cfg.returns()]
-    ctx.ob('OPEN-GATE', 'validate_sfinfo:returns', sorted(set(rets)) == [0, 1] and rets.count(1) == 1, v.loc(v.body), 'returns %s' % rets, None)
+    # what the validator decides, not how it is written: partial evaluation with one field out of range at a time (the others valid) must give 0, all valid must give 1
+    from engine.peval import PEval as _PE3
+    pe3 = _PE3(prog, effects=eff)
+    E3 = prog.enums
+    par3 = v.params[0]['n']
+    good = {'%s->samplerate' % par3: 44100, '%s->frames' % par3: 0, '%s->channels' % par3: 2, '%s->format' % par3: E3['SF_FORMAT_WAV'] | E3['SF_FORMAT_PCM_16'], '%s->sections' % par3: 1, '%s->seekable' % par3: 1}
+    cases = [('samplerate < 1', {'samplerate': 0}), ('samplerate < 0', {'samplerate': -5}), ('frames < 0', {'frames': -1}), ('channels < 1', {'channels': 0}), ('channels > SF_MAX_CHANNELS', {'channels': 1025}),
+             ('no container bits', {'format': E3['SF_FORMAT_PCM_16']}), ('no codec bits', {'format': E3['SF_FORMAT_WAV']}), ('sections < 1', {'sections': 0})]
+    for nm_, chg in cases:
+        env3 = dict(good)
+        env3.update({'%s->%s' % (par3, k_): v_ for k_, v_ in chg.items()})
+        r3 = pe3.explore(v, env3)
+        got3 = sorted(r3.returns, key=lambda x: (x is None, x))
+        ctx.ob('OPEN-GATE', 'validate_sfinfo:' + nm_, got3 == [0], v.loc(v.body), 'with %s the validator returns %s (required 0)' % (chg, got3), None)
+    r3 = pe3.explore(v, dict(good))
+    got3 = sorted(r3.returns, key=lambda x: (x is None, x))
+    ctx.ob('OPEN-GATE', 'validate_sfinfo:returns', got3 == [1], v.loc(v.body), 'with every field valid the validator returns %s (required 1)' % got3, None)
     v = prog.fn('validate_psf', 'sndfile.c')
     conds = {v.s(n['cond']) for n in v.walk() if n['k'] == 'IfStmt'}
     for c in ('(psf->datalength < 0)', '(psf->dataoffset < 0)', '(psf->blockwidth && (psf->blockwidth != (psf->sf.channels * psf->bytewidth)))'):
@@ -120,6 +130,12 @@ def run(ctx):
             e = g.unwrap(g.N[r['kids'][0]])
             if e.get('v') == 0 or (e['k'] == 'CallExpr' and e.get('callee') == 'psf_open_file'):
                 continue
+            # a static helper that cleans up and returns NULL on every path (the failure exits collected in one place) is a NULL return
+            if e['k'] == 'CallExpr' and len(prog.fns.get(e.get('callee') or '', [])) == 1 and prog.fns[e['callee']][0].static:
+                h_ = prog.fns[e['callee']][0]
+                hr_ = [h_.unwrap(h_.N[r_['kids'][0]]).get('v') for r_ in h_.cfg.returns() if r_.get('kids')]
+                if hr_ and all(x_ == 0 for x_ in hr_):
+                    continue
             bad.append(g.s(e))
         ctx.ob('OPEN-GATE', name, not bad, g.loc(g.body), 'returns only NULL or psf_open_file (...)' if not bad else 'returns %s' % bad, None)
 
@@ -304,9 +320,9 @@ def run(ctx):
     from engine.parseloops import chunk_loop_eof as _cle, neg_skip as _nsk
     ctx.rule('CHUNK-LOOP-EOF', 'every header-parser loop that starts a round by reading a chunk marker (`m` / `h` field of psf_binheader_readf) leaves when that read delivers nothing: an exit under '
              '`target == 0` (READF-ZERO makes the target zero after a failed read), or under a test of the freshly assigned byte count of that very read; a parser that keeps interpreting '
-             'zeros as chunks can run for ever on a truncated stream', floor=9)
+             'zeros as chunks can run for ever on a truncated stream', floor=7)
     n_cle_ = _cle(ctx, prog)
-    ctx.require(n_cle_ >= 9, 'only %d marker-reading parser loops found' % n_cle_)
+    ctx.require(n_cle_ >= 7, 'only %d marker-reading parser loops found' % n_cle_)
     ctx.rule('NEG-SKIP', 'every relative header skip (`j` field of psf_binheader_readf) with a signed amount is proved non-negative at the call (A-PENT, or the enclosing guard orders the operands of '
              '`A - B`); unsigned amounts cannot step back; a negative skip re-parses bytes already consumed and is how a hostile chunk size makes the parser loop for ever '
              '(unproved sites: tables/c03_negskip.tsv, one written argument each)', floor=75)
